@@ -48,7 +48,8 @@ class PluginGen(object):
         self.nextId = 0
         self.g90e = self.rng.random() < 0.2
         # stored / applied settings as the reference sees them
-        self.store = {"clearAfter": False, "mayShrink": False, "enter": [], "exit": [], "xg": None}
+        self.store = {"clearAfter": False, "mayShrink": False, "enter": [], "exit": [], "xg": None,
+                      "at": None, "g90e": self.g90e}
         self.applied = dict(self.store)
         self.active = False
         self.exactOnly = True     # see act_print
@@ -56,7 +57,26 @@ class PluginGen(object):
     # ------------------------------------------------------------------ settings
     def act_settings(self):
         rng = self.rng
-        key = rng.choice(["clearAfter", "mayShrink", "enter", "exit", "xg"])
+        key = rng.choice(["clearAfter", "mayShrink", "enter", "exit", "xg", "xg", "at", "g90e"])
+        if key == "at":
+            # the @-command action table: default, custom (see gen_motion.CUSTOM_AT) or empty
+            from harness.rig import DEFAULT_AT
+            table = rng.choice([list(DEFAULT_AT), list(gen_motion.CUSTOM_AT),
+                                list(gen_motion.CUSTOM_AT), []])
+            value = [{"command": c, "parameterPattern": p, "action": a, "description": ""}
+                     for c, p, a in table]
+            self.steps.append(("set", "atCommandActions", value, [list(t) for t in table]))
+            self.store["at"] = table
+            if rng.random() < 0.75:
+                self.event("SettingsUpdated")
+            return
+        if key == "g90e":
+            value = rng.random() < 0.5
+            self.steps.append(("set", "g90InfluencesExtruder", value, None))
+            self.store["g90e"] = value
+            if rng.random() < 0.75:
+                self.event("SettingsUpdated")
+            return
         if key in ("clearAfter", "mayShrink"):
             value = rng.random() < 0.5
             self.steps.append(("set", {"clearAfter": "clearRegionsAfterPrintFinishes",
@@ -247,11 +267,14 @@ class PluginGen(object):
         focus = rng.choice(["motion", "extrusion", "deferred", "at", "motion"])
         if self.focus == "deferred":
             focus = "deferred"
-        cfg = {"g90e": self.g90e, "enter": list(self.applied["enter"]),
+        elif self.focus == "at":
+            focus = "at"
+        custom = self.applied.get("at") == list(gen_motion.CUSTOM_AT)
+        cfg = {"g90e": self.applied.get("g90e", self.g90e), "enter": list(self.applied["enter"]),
                "exit": list(self.applied["exit"]),
                "xg": dict(self.applied["xg"]) if self.applied["xg"] is not None else
                {"G4": "exclude", "M204": "merge", "M205": "merge", "M117": "last", "M73": "merge"},
-               "at": None}
+               "at": list(gen_motion.CUSTOM_AT) if custom else None}
         known = [r for r in self.regions]
         gen = gen_motion.MotionGen(rng.randint(0, 10 ** 9), focus, length=rng.randint(8, 30),
                                    regions0=known, new_regions=0, cfg=cfg)
@@ -262,6 +285,7 @@ class PluginGen(object):
         # arcs carry a classification computed from the generator's (possibly stale) registry view
         gen.useArcs = False
         gen.lateRegions = False
+        gen.useRegEdit = False     # the registry is edited through the API at this level
         prog = gen.build()
         steps = list(prog.steps)
         cut = len(steps) if rng.random() < 0.4 else rng.randint(3, len(steps))
@@ -306,6 +330,17 @@ class PluginGen(object):
 
     def build(self):
         rng = self.rng
+        if self.focus == "at":
+            # start from a configured @-command table
+            from harness.rig import DEFAULT_AT
+            table = rng.choice([list(gen_motion.CUSTOM_AT), list(gen_motion.CUSTOM_AT),
+                                list(DEFAULT_AT), []])
+            self.steps.append(("set", "atCommandActions",
+                               [{"command": c, "parameterPattern": p, "action": a,
+                                 "description": ""} for c, p, a in table],
+                               [list(t) for t in table]))
+            self.store["at"] = table
+            self.event("SettingsUpdated")
         if rng.random() < 0.5:
             self.act_settings()
         if rng.random() < 0.3:
@@ -345,6 +380,7 @@ def generate(seed, focus=None, exact_only=True, g90e=None):
     gen.exactOnly = exact_only
     if g90e is not None:
         gen.g90e = g90e
+        gen.store["g90e"] = gen.applied["g90e"] = g90e
     return gen.build()
 
 
@@ -391,7 +427,15 @@ def fine_history(seed):
     view = []
     for index in range(rng.choice([1, 2, 2, 3])):
         cx, cy = rng.randint(200000, 1800000), rng.randint(200000, 1800000)
-        if rng.random() < 0.7:
+        roll = rng.random()
+        if roll < 0.12:
+            # attributes that are exactly zero: anchored at the bed origin, a point-sized disc
+            reg = rng.choice([{"t": "rect", "x1": 0, "y1": 0, "x2": rng.choice([10000, 200000]),
+                               "y2": rng.choice([10000, 150000])},
+                              {"t": "circ", "cx": cx, "cy": cy, "r": 0},
+                              {"t": "circ", "cx": 0, "cy": cy, "r": 10000},
+                              {"t": "rect", "x1": cx, "y1": 0, "x2": cx + 10000, "y2": 0}])
+        elif roll < 0.7:
             reg = {"t": "circ", "cx": cx, "cy": cy,
                    "r": rng.choice([5000, 10000, 25000, 30000, 12345, 100])}
         else:
